@@ -36,7 +36,7 @@ REQUIRED = {"match.instance_matches": {"quick": 3000, "thorough": 150000}, "args
             "cucumber.lookup": {"quick": 1000, "thorough": 50000}, "registry.find_step_definition_agrees_with_find_match": {"quick": 3000, "thorough": 150000},
             "registry.partial_converter_lookup": {"quick": 2000, "thorough": 100000}, "lookups_ending_in_converter_error": {"quick": 200, "thorough": 10000}, "modules.default_matcher_reset": {"quick": 100, "thorough": 800},
             "wrapper.span_invariant_on_every_match": {"quick": 5000, "thorough": 250000}}
-REQUIRED_SEEN = {"literal_text_class": ["run_of_blanks_or_tab_or_nbsp_inside"], "step_function_flavour": ["sync", "async_plain", "async_with_timeout", "behind_shared_decorator"], "step_module_imports_another": ["yes"],
+REQUIRED_SEEN = {"literal_text_class": ["run_of_blanks_or_tab_or_nbsp_inside"], "matcher_selected_with": ["deprecated_alias_step_matcher", "use_step_matcher"], "registration_history": ["bad_definition_first"], "step_function_flavour": ["sync", "async_plain", "async_with_timeout", "behind_shared_decorator"], "step_module_imports_another": ["yes"],
                  "cucumber_expression_parameters": ["none", "1", "2", "no_match"],
                  "project_default_given_by": ["use_default_step_matcher", "use_step_matcher_before_loading"], "matcher_kind": KINDS, "field_name_class": ["soft_keyword"], "custom_type_name": ["Color", "Colorful"], "token_kind": ["lit", "named", "int", "word", "float", "custom", "many", "optional", "rnamed", "runnamed", "roptional", "rbracket"]}
 EXHAUSTIVE = {"quick": True, "thorough": True}
@@ -392,6 +392,19 @@ def check_pattern(lab, mon, rng, kind, sample=False):
             mon.seen("field_name_class", "soft_keyword")
         if t[0] == "custom":
             mon.seen("custom_type_name", "Colorful" if t[1] in ("n2", "n4", "match") else "Color")
+    if kind in ("re", "re0") and rng.random() < 0.3:
+        # a step module with a definition whose regular expression cannot be compiled comes FIRST: behave reports it as a bad step
+        # definition and ignores it -- the step below is served by the good definition
+        import io as _io
+        import contextlib as _ctx
+        broken = rng.choice(["(unbalanced " + ptext.lstrip("^"), ptext.rstrip("$") + " [z-a]", "(?P<n1>x)(?P<n1>y) .*"])
+        with _ctx.redirect_stdout(_io.StringIO()), _ctx.redirect_stderr(_io.StringIO()):
+            try:
+                lab.register(reg, kind, "step", broken, lab.make_fn("bad"))
+            except Exception:
+                pass
+        case["bad_definition_registered_first"] = broken
+        mon.seen("registration_history", "bad_definition_first")
     try:
         lab.register(reg, kind, "step", ptext, fn)
     except Exception as ex:
@@ -633,8 +646,13 @@ def module_loading_random(lab, mon, rng):
                 pattern, value = "%s {n:d} (x)" % word, 70 + i
             text = "%s 7%d (x)" % (word, i)
             src = "from behave import %s, use_step_matcher\n" % deco
-            if choice:
+            if choice and rng.random() < 0.3:
+                # the old spelling (deprecated alias, still exported): step_matcher(NAME) is use_step_matcher(NAME)
+                src += "import warnings\nfrom behave import step_matcher\nwith warnings.catch_warnings():\n    warnings.simplefilter('ignore')\n    step_matcher(%r)\n" % choice
+                mon.seen("matcher_selected_with", "deprecated_alias_step_matcher")
+            elif choice:
                 src += "use_step_matcher(%r)\n" % choice
+                mon.seen("matcher_selected_with", "use_step_matcher")
             src += "@%s(%r)\ndef s%d(context, n):\n    context.got = (%r, n)\n" % (deco, pattern.replace("\\\\", "\\"), i, word)
             with open(os.path.join(root, "m%02d_%s.py" % (i, word)), "w") as fh:
                 fh.write(src)
